@@ -772,7 +772,7 @@ class Analyzer(object):
 TRANSPARENT_CALLS = (
     "Clone::clone", "ToString::to_string", "ToOwned::to_owned", "String::as_str", "String::as_bytes",
     "Option::<T>::as_deref", "Option::as_deref", "Option::as_ref", "Option::<T>::as_ref", "AsRef::as_ref",
-    "Into::into", "From::from", "Deref::deref", "DerefMut::deref_mut", "Borrow::borrow", "to_vec",
+    "Into::into", "From::from", "Deref::deref", "DerefMut::deref_mut", "Borrow::borrow", "slice::to_vec",
     "Vec::as_slice", "String::from", "str::to_string", "slice::to_vec", "str::as_bytes", "Arc::clone",
     "Option::<T>::as_mut", "Option::as_mut", "Vec::<T, A>::as_slice", "into_boxed_slice", "Pin::<Ptr>::new",
     "Pin::new", "Pin::<Ptr>::get_mut", "std::mem::take", "Option::<T>::take", "IntoIterator::into_iter",
@@ -786,7 +786,7 @@ def is_transparent_call(e):
     r = short(e[2]) if e[2] else ""
     for t in TRANSPARENT_CALLS:
         ts = short(t)
-        if s.endswith(ts) or r.endswith(ts):
+        if s == ts or r == ts or s.endswith("::" + ts) or r.endswith("::" + ts):
             return True
     return False
 
